@@ -25,9 +25,11 @@ func init() {
 			"Every memory operand of every round is shown 8-aligned and inside [0,729) of the parameter it derives from, loads come only from the round's `from` pair and stores only to its `to` pair, every position is written exactly once per round with S(from[364j mod 729], from[364(j+1) mod 729]), no data crosses a round boundary, 81 rounds leave the result in the original `to` pair. " +
 			"The portable Go loop is decided for one round in the 64-bit ANF domain (all bits of all 2×729 words symbolic, the destination pre-filled with junk), its buffer swap and round count structurally; the s-box pair is checked against the Curl-P truth table through the (l,h) encoding; build constraints are shown complementary over all assignments of {amd64, gc, purego}. Relative to the modelled instruction semantics this decides the statement.",
 		Configs: func(tier string) []ana.Config {
-			cs := []ana.Config{{Tags: []string{"purego"}}}
+			// the statement quantifies over build targets: the portable path of a 32-bit target (bits.UintSize == 32 is a
+			// constant there) is decided on every run, a second 64-bit target without assembly in the thorough tier
+			cs := []ana.Config{{Tags: []string{"purego"}}, {GOARCH: "386"}}
 			if tier == "thorough" {
-				cs = append(cs, ana.Config{GOARCH: "386"}, ana.Config{GOARCH: "arm64"})
+				cs = append(cs, ana.Config{GOARCH: "arm64"})
 			}
 			return cs
 		},
